@@ -3,17 +3,18 @@ module verif/harness
 go 1.23
 
 require (
+	github.com/andybalholm/brotli v1.0.0
 	github.com/baidu/go-lib v0.0.0-20200819072111-21df249f5e6a
 	github.com/bfenetworks/bfe v0.0.0
 	github.com/miekg/dns v1.1.29
 	github.com/spaolacci/murmur3 v1.1.0
+	golang.org/x/crypto v0.0.0-20200622213623-75b288015ac9
 	golang.org/x/net v0.0.0-20201021035429-f5854403a974
 	pgregory.net/rapid v1.3.0
 )
 
 require (
 	github.com/abbot/go-http-auth v0.4.1-0.20181019201920-860ed7f246ff // indirect
-	github.com/andybalholm/brotli v1.0.0 // indirect
 	github.com/armon/go-radix v1.0.0 // indirect
 	github.com/asergeyev/nradix v0.0.0-20170505151046-3872ab85bb56 // indirect
 	github.com/aymerick/douceur v0.2.0 // indirect
@@ -47,7 +48,6 @@ require (
 	go.elastic.co/apm/module/apmot v1.7.2 // indirect
 	go.elastic.co/fastjson v1.0.0 // indirect
 	go.uber.org/atomic v1.6.0 // indirect
-	golang.org/x/crypto v0.0.0-20200622213623-75b288015ac9 // indirect
 	golang.org/x/sys v0.0.0-20210119212857-b64e53b001e4 // indirect
 	golang.org/x/text v0.3.3 // indirect
 	google.golang.org/grpc v1.22.1 // indirect
